@@ -289,9 +289,12 @@ impl View for Image {
         let size = surf.size();
         let ppc = ctx.pixels_per_cell();
         if let Some(cell) = surf.get_mut(Position::origin()) {
-            *cell =
-                Cell::new_image(self.crop(..size.height * ppc.height, ..size.width * ppc.width))
-                    .with_face(cell.face());
+            // NOTE: crop clamps range to the size of the image
+            *cell = Cell::new_image(self.crop(
+                ..size.height.saturating_mul(ppc.height),
+                ..size.width.saturating_mul(ppc.width),
+            ))
+            .with_face(cell.face());
         }
         Ok(())
     }
